@@ -21,11 +21,11 @@ type crashCfg struct {
 
 func init() {
 	cfgs := map[string]crashCfg{
-		"C01": {"mixed", 36, 500, "crash images (snapshot at an I/O boundary x which pending 8-byte pieces / directory operations / lengths reached disk, nested to depth 2) recovered and compared with the legal model states; non-trivial = distinct image content hash with a pending piece, pending directory operation, in-flight call or taken inside recovery", "nontrivial_images"},
-		"C02": {"chains", 36, 500, "crash images of chains crash->recover->append->crash; recovered state must equal one legal state exactly; non-trivial = distinct image in which non-zero stale bytes sit behind the recovered tail's last commit", "c02_nontrivial"},
-		"C03": {"seal", 36, 500, "crash images recovered, then a fixed continuation (appends forcing rotation, truncations, stable set/get, clean reopen, append) must succeed and match; non-trivial = distinct image taken in rotation, inside Open, during a truncation, or with the tail file missing", "c03_nontrivial"},
-		"C04": {"trunc", 36, 500, "crash images of workloads rich in truncations; non-trivial = distinct image with a truncation in flight or acknowledged earlier", "trunc_images"},
-		"C13": {"mixed", 30, 400, "directory listing compared with committed metadata after every acknowledged call of the golden run and after Open on every crash image, plus online segment-ID rules at every CommitState/Create; non-trivial = distinct image holding a file not in (or lacking a file of) the committed metadata before Open", "c13_nontrivial"},
+		"C01": {"mixed", 24, 500, "crash images (snapshot at an I/O boundary x which pending 8-byte pieces / directory operations / lengths reached disk, nested to depth 2) recovered and compared with the legal model states; non-trivial = distinct image content hash with a pending piece, pending directory operation, in-flight call or taken inside recovery", "nontrivial_images"},
+		"C02": {"chains", 30, 500, "crash images of chains crash->recover->append->crash; recovered state must equal one legal state exactly; non-trivial = distinct image whose tail file, before recovery, holds non-zero bytes beyond the point where a plain frame scan stops, or a torn (partial) subset of the in-flight batch", "c02_nontrivial"},
+		"C03": {"seal", 24, 500, "crash images recovered, then a fixed continuation (appends forcing rotation, truncations, stable set/get, clean reopen, append) must succeed and match; non-trivial = distinct image taken in rotation, inside Open, during a truncation, or with the tail file missing", "c03_nontrivial"},
+		"C04": {"trunc", 24, 500, "crash images of workloads rich in truncations; non-trivial = distinct image with a truncation in flight or acknowledged earlier", "trunc_images"},
+		"C13": {"mixed", 20, 400, "directory listing compared with committed metadata after every acknowledged call of the golden run and after Open on every crash image, plus online segment-ID rules at every CommitState/Create; non-trivial = distinct image holding a file not in (or lacking a file of) the committed metadata before Open", "c13_nontrivial"},
 	}
 	for id, cfg := range cfgs {
 		id, cfg := id, cfg
@@ -38,7 +38,7 @@ func runCrash(c *evid.Ctx, id string, cfg crashCfg) {
 	c.Assume("simmeta: CommitState/SetStable are atomic and durable when they return (bbolt itself is exercised by C07/C08 in child processes)",
 		"power loss keeps any subset of un-fsynced 8-byte pieces and pending directory operations; fsynced bytes are never damaged",
 		"directory-sync behaviour of simfs is calibrated from the production fs package's hook events at start of run")
-	p := crashsim.Params{Prop: id, MaxDepth: 2, VariantBudget: 10, NestedBudget: 3, NestedPoints: 5, ExhaustiveMax: 4, PointStride: 3, Workers: runtime.NumCPU()}
+	p := crashsim.Params{Prop: id, MaxDepth: 2, VariantBudget: 10, NestedBudget: 3, NestedPoints: 3, ExhaustiveMax: 4, PointStride: 3, Workers: runtime.NumCPU()}
 	n := cfg.quickWl
 	if !quick(c) {
 		n = cfg.thoroughWl
